@@ -130,4 +130,13 @@ CLAIMS["C18"] = dict(
     note=(TRUST + "Not decided: the values returned by the std algorithms the members delegate to (std::search, find_first_of, char_traits), i.e. search results as such; max_size(); UB cases of std::string_view."),
 )
 
+CLAIMS["C19"] = dict(
+    level="other",
+    technique="static analysis: table agreement (alphabet vs decode table, digit tables vs parser switches), symbolic bit provenance of the base64 encoder/decoder, scan-window guard rule, writer/reader class agreement via decision tables, end-of-input decision tables of the comparison overloads, parameter-name role rule for forwarding overloads",
+    text=("B64-TABLES / B64-SKIP / B64-BITS decide that decode o encode is the identity on the bit level and that padding/whitespace are skipped; HEX-TABLES; SCAN-WINDOW "
+          "(found and fixed: split/split_view missed a trailing separator and produced inverted ranges on overlapping matches); QUOTE-AGREE (found and fixed: join_quoted "
+          "did not quote empty fields / leading quotes); CMP3-ORIENT and ICASE-OVERLOADS (found and fixed: compare_icase prefix sign x4, equal_icase(view,cstr)); FORWARD-ROLES."),
+    note=(TRUST + "Not decided: line-break placement of base64_encode, values of the pure helpers (trim, pad, replace, erase_all, contains, starts/ends_with, levenshtein, to_lower/upper), join/split round trip beyond the scan-window conditions."),
+)
+
 NOT_APPLICABLE = {}
